@@ -241,6 +241,14 @@ func (b *l3Bracket) verdict() string {
 // parenthesis outside a bracket expression nests; a bracket expression is skipped as a unit).
 // status: 0 no closing parenthesis, 1 found, 2 a malformed bracket expression was met.
 func l3ScanGroup(fn bool, s []rune) (alts [][]rune, rest []rune, status int, unclosedBracket bool) {
+	alts, rest, status, unclosedBracket, _ = l3ScanGroupX(fn, s)
+	return
+}
+
+// l3ScanGroupX also reports whether a closed bracket expression with a slash inside was passed
+// (filename mode: the reference reads its `[` as an ordinary character, pattern.go emits the whole
+// bracket literally).
+func l3ScanGroupX(fn bool, s []rune) (alts [][]rune, rest []rune, status int, unclosedBracket, slashBracket bool) {
 	depth := 0
 	var cur []rune
 	r := s
@@ -249,7 +257,7 @@ func l3ScanGroup(fn bool, s []rune) (alts [][]rune, rest []rune, status int, unc
 		switch {
 		case c == '\\':
 			if len(r) < 2 {
-				return nil, nil, 0, unclosedBracket
+				return nil, nil, 0, unclosedBracket, slashBracket
 			}
 			cur = append(cur, c, r[1])
 			r = r[2:]
@@ -263,17 +271,19 @@ func l3ScanGroup(fn bool, s []rune) (alts [][]rune, rest []rune, status int, unc
 				r = b.rest
 				continue
 			case "malformed":
-				return nil, nil, 2, unclosedBracket
+				return nil, nil, 2, unclosedBracket, slashBracket
 			}
 			if !b.closed {
 				unclosedBracket = true
+			} else if b.slash {
+				slashBracket = true
 			}
 		case c == '(':
 			depth++
 		case c == ')':
 			if depth == 0 {
 				alts = append(alts, cur)
-				return alts, r[1:], 1, unclosedBracket
+				return alts, r[1:], 1, unclosedBracket, slashBracket
 			}
 			depth--
 		case c == '|' && depth == 0:
@@ -285,7 +295,7 @@ func l3ScanGroup(fn bool, s []rune) (alts [][]rune, rest []rune, status int, unc
 		cur = append(cur, c)
 		r = r[1:]
 	}
-	return nil, nil, 0, unclosedBracket
+	return nil, nil, 0, unclosedBracket, slashBracket
 }
 
 // l3Info collects what the classifier found in a pattern.
@@ -355,9 +365,12 @@ func (in *l3Info) walk(mode int, inGroup bool, pos int, prev rune, s []rune, dep
 					in.negNested = true
 				}
 			}
-			alts, rest2, status, ub := l3ScanGroup(fn, rest[1:])
+			alts, rest2, status, ub, sb := l3ScanGroupX(fn, rest[1:])
 			if ub {
 				in.unclosedBracketInGroup = true
+			}
+			if sb {
+				in.slashBracket = true
 			}
 			if status == 2 {
 				in.malformed = true
